@@ -86,7 +86,7 @@ PROPS = {
     "C09": dict(
         level="exploration", components="compile",
         parts=[dict(test="TestC09", engine="B", quick_checks=500, thorough_checks=30000),
-               dict(test="TestC09R", engine="R", quick_checks=150, thorough_checks=5000)],
+               dict(test="TestC09R", engine="R", quick_checks=150, thorough_checks=5000, nondeterministic_part=True)],
         thorough_timeout=7200,
         rule="a case = valid generated workload x per-file input form (source / AST / parser.Result / unlinked FileDescriptorProto) for "
              "one or two concurrent Compile clients sharing the same supplied objects x SourceInfoMode in {none, standard, extra "
@@ -119,6 +119,7 @@ PROPS = {
     ),
     "C35": dict(
         test="TestC35", engine="B", level="exploration", components="experimental", nondeterminism_is_violation=True,
+        selftest_may_diverge="the outcome of cases whose workspace has an import cycle is itself nondeterministic in the code under test (known finding C36/diagnostics-differ-with-import-cycle), so such a case may stop after a different number of runs; the schedule of each individual run is reproducible",
         quick_checks=400, thorough_checks=6000, thorough_timeout=10800,
         rule="a case = generated workspace (2-6 proto files, optionally with defects) x workspace roots x edit history of 1-5 steps from "
              "{add a type, change a field type, rename a message, add an import (maybe unused/cyclic/missing), drop an import, break/"
@@ -130,6 +131,7 @@ PROPS = {
     ),
     "C36": dict(
         test="TestC36", engine="B", level="exploration", components="experimental", nondeterminism_is_violation=True,
+        selftest_may_diverge="the outcome of cases whose workspace has an import cycle is itself nondeterministic in the code under test (known finding C36/diagnostics-differ-with-import-cycle), so such a case may stop after a different number of runs; the schedule of each individual run is reproducible",
         quick_checks=400, thorough_checks=6000, thorough_timeout=10800,
         rule="a case = generated invalid workspace (0-12 reportable errors, warnings) x 2-4 runs of queries.FDS on brand-new or warm "
              "executors with parallelism 1-4 under a seeded schedule (each fresh executor has fresh sync.Map hash seeds), compared with "
